@@ -122,12 +122,59 @@ def rule_mirror(ctx: Ctx) -> None:
     rm, rma = P.func(f"{RUN}.run_map"), P.func(f"{RUN}.run_map_async")
     inner = P.func(f"{RUN}.run_map_async._run_pipeline")
 
+    def prepared_names(fn: FuncInfo) -> dict[str, str]:
+        """Local names that hold (a part of) the value prepare_run(...) returned -> a canonical text for that part: the tuple is
+        unpacked positionally in one driver and read by field name (a NamedTuple) in the other."""
+        prep = P.functions.get("pipefunc.map._prepare.prepare_run")
+        fields: list[str] = []
+        if prep is not None and prep.node.returns is not None:
+            q = P.resolve_name(prep.module, dotted(prep.node.returns) or norm(prep.node.returns), prep)
+            ci = P.classes.get(q) if q else None
+            if ci is not None:
+                fields = list(ci.fields)
+        out: dict[str, str] = {}
+        scope_nodes = [fn.node] + ([fn.parent.node] if fn.parent is not None else [])
+        for root in scope_nodes:
+            for a_ in ast.walk(root):
+                if isinstance(a_, ast.Assign) and isinstance(a_.value, ast.Call) and dotted(a_.value.func).rsplit(".", 1)[-1] == "prepare_run":
+                    for t in a_.targets:
+                        if isinstance(t, ast.Tuple):
+                            for i, el in enumerate(t.elts):
+                                if isinstance(el, ast.Name):
+                                    out[el.id] = f"<prepared>.{fields[i] if i < len(fields) else i}"
+                        elif isinstance(t, ast.Name):
+                            out[t.id] = "<prepared>"
+        return out
+
     def call_kwargs(fn: FuncInfo, name: str) -> dict[str, str] | None:
         c = [c for c in ast.walk(fn.node) if isinstance(c, ast.Call) and dotted(c.func) == name]
         if not c:
             return None
         d = Defs(fn)
-        return {k.arg: norm(d.resolve(k.value)) for k in c[0].keywords if k.arg}
+        pn = {} if name == "prepare_run" else prepared_names(fn)  # the arguments OF prepare_run are the values before it ran
+
+        def canon(v: ast.AST, depth: int = 4) -> str:
+            if isinstance(v, ast.Attribute) and isinstance(v.value, ast.Name) and pn.get(v.value.id) == "<prepared>":
+                return f"<prepared>.{v.attr}"
+            if isinstance(v, ast.Name) and v.id in pn:
+                return pn[v.id]
+            if isinstance(v, ast.Name) and depth > 0 and d.unique(v.id) is not None:
+                return canon(d.unique(v.id), depth - 1)  # `progress = prepared.progress`
+            r = d.resolve(v)
+            if isinstance(r, ast.Name) and r.id in pn:
+                return pn[r.id]
+            if isinstance(r, ast.Attribute) and isinstance(r.value, ast.Name) and pn.get(r.value.id) == "<prepared>":
+                return f"<prepared>.{r.attr}"
+            if isinstance(r, ast.Subscript) and isinstance(r.value, ast.Name) and pn.get(r.value.id) == "<prepared>" and isinstance(r.slice, ast.Constant):
+                return f"<prepared>.{r.slice.value}"
+            return norm(r)
+
+        # positional arguments are named after the callee's parameters
+        callee = next((f_ for f_ in ctx.cg.resolve_callable(fn, c[0].func)), None)
+        pos = [p_ for p_ in callee.param_names() if p_ not in ("self", "cls")] if callee is not None else []
+        out = {pos[i]: canon(a) for i, a in enumerate(c[0].args) if i < len(pos) and not isinstance(a, ast.Starred)}
+        out.update({k.arg: canon(k.value) for k in c[0].keywords if k.arg})
+        return out
 
     ks, ka = call_kwargs(rm, "prepare_run"), call_kwargs(rma, "prepare_run")
     if ks is not None and ka is not None:
@@ -409,8 +456,10 @@ def rule_shared(ctx: Ctx) -> None:
                         ctx.tri("5-shared", init, s_, absolute, not absolute and v.startswith("Path(") and v.endswith(")") and v.count("(") == 1,
                                 f"{sub.name} keeps an absolute folder: worker processes write where the parent reads", f"`self.folder = {v}` keeps a relative path: a worker whose working directory differs writes its elements elsewhere and the parent reads them back as missing",
                                 f"folder `{v[:40]}` not classified", key=f"absolute-folder {sub.name}")
-        ctx.add("5-shared", sub.qualname, sub.loc, file_backed or proxy, f"{sub.name}: workers dump into {'files' if file_backed else 'a manager proxy'} that the parent can read" if file_backed or proxy else
-                f"{sub.name} lets workers dump but its storage is neither files nor a manager proxy: worker results never reach the parent", key=f"dis {sub.name}")
+        # a violation needs the positive fact that the backing container is process-local: the constructor chain mentions no manager at all
+        mentions_manager = any("anager" in norm(c_.node) for c_ in [m_ for k_ in P.mro(sub.qualname) for nm_, m_ in dict.items(k_.methods) if nm_ == "__init__"])
+        ctx.tri("5-shared", sub.qualname, sub.loc, file_backed or proxy, not (file_backed or proxy) and not mentions_manager, f"{sub.name}: workers dump into {'files' if file_backed else 'a manager proxy'} that the parent can read",
+                f"{sub.name} lets workers dump but its storage is neither files nor a manager proxy: worker results never reach the parent", f"{sub.name}: the constructor mentions a manager, but how the proxy reaches the backing field was not recognised", key=f"dis {sub.name}")
         for fld in tainted.get(sub.qualname, ()):
             for c in P.mro(sub.qualname):
                 for name, meth in c.methods.items():
